@@ -424,6 +424,25 @@ impl Engine for Arith {
         classify(prop, l, op, a, b, &av, &bv_raw, &ex, fits, &mut ev);
         ev
     }
+    fn exec_raw(&self, _prop: &str, c: &Case) -> vcore::out::Outs {
+        let l = L::from_idx(c.lay as usize);
+        if c.op == PROGRAM {
+            exec_program(c.lay, c.a & l.mask(), &c.prog, &c.s)
+        } else {
+            let bl = if is_int_rhs(c.op) { int_l(l) } else { l };
+            exec(c.lay, c.op, c.a & l.mask(), c.b & bl.mask())
+        }
+    }
+    fn pair_known(&self, kf: &Kf, _prop: &str, c: &Case, label: &str, chk_out: &Out, _rel_out: &Out) -> Option<&'static str> {
+        // the plain div_euclid forms convert 1 with from_num(1): an overflow panic under the checking
+        // profile although q fits (known finding of C07)
+        if c.op == DIV_EUCLID || c.op == DIV_EUCLID_INT {
+            let l = L::from_idx(c.lay as usize);
+            let bl = if is_int_rhs(c.op) { int_l(l) } else { l };
+            return kf::matches(kf, "C07", l, c.op, c.a & l.mask(), c.b & bl.mask(), label, chk_out, &Exact::Split, true);
+        }
+        None
+    }
     fn selftest(&self) -> Result<u64, String> {
         // the oracle on hand-computed vectors (independent of the library)
         let l = L::parse("I4F4").unwrap();
